@@ -537,7 +537,11 @@ def gen_any(g, depth, budget=None, kinds=None):
     vsi = P.get("vec_static_inner", 0.0)
     if k == "vmap":
         per = max(1, budget // max(n, 1))
-        inner = gen_static(g, d1, budget=per) if (vsi > 0 and rng.random() < vsi) else sub(per)
+        vli = P.get("vec_leaf_inner", 0.0)
+        if vli > 0 and rng.random() < vli:
+            inner = gen_leaf(g)  # a distribution mapped directly (normal.vmap(...) @ "v")
+        else:
+            inner = gen_static(g, d1, budget=per) if (vsi > 0 and rng.random() < vsi) else sub(per)
         ins, _ = sig(inner)
         if not any(liftable(t) for t in ins):
             # give it something to map over
@@ -559,7 +563,11 @@ def gen_any(g, depth, budget=None, kinds=None):
         return {"k": "vmap", "inner": inner, "axes": axes, "n": n}
     if k == "repeat":
         per = max(1, budget // max(n, 1))
-        inner = gen_static(g, d1, budget=per) if (vsi > 0 and rng.random() < vsi) else sub(per)
+        vli = P.get("vec_leaf_inner", 0.0)
+        if vli > 0 and rng.random() < vli:
+            inner = gen_leaf(g)
+        else:
+            inner = gen_static(g, d1, budget=per) if (vsi > 0 and rng.random() < vsi) else sub(per)
         return {"k": "repeat", "inner": inner, "n": max(n, 1)}
     if k in SCAN_LIKE:
         n = max(n, 1)
@@ -666,7 +674,7 @@ def gen_any(g, depth, budget=None, kinds=None):
 
 def gen_program(rng, profile):
     g = G(rng, profile)
-    depth = rng.randint(1, profile["max_depth"])
+    depth = rng.randint(profile.get("min_depth", 1), profile["max_depth"])
     kinds = profile.get("root_kinds") or profile["kinds"]
     node = gen_any(g, depth, kinds=kinds)
     return node
